@@ -79,3 +79,366 @@ Proof.
   intros Hu H. unfold pull_cands in H. apply flat_map_opt_In in H. destruct H as [i [Hi Hg]].
   unfold get_del in Hg. apply find_id_In in Hg. destruct Hg as [H1 H2]. subst i. auto.
 Qed.
+
+(* ---- the row of sid keeps its retention and its topic ---- *)
+Definition sagree (st' : state) (sid : id) (s : sub) : Prop :=
+  forall s', get_sub st' sid = Some s' -> s_msg_ttl s' = s_msg_ttl s /\ s_topic s' = s_topic s.
+
+Lemma sagree_same st st' sid s : subs st' = subs st -> get_sub st sid = Some s -> sagree st' sid s.
+Proof.
+  intros He Hs s' Hs'. unfold get_sub in *. rewrite He, Hs in Hs'. injection Hs' as <-. auto.
+Qed.
+
+Lemma sagree_map st st' sid s g :
+  subs st' = map g (subs st) -> get_sub st sid = Some s ->
+  (forall r, In r (subs st) -> s_id (g r) = s_id r) ->
+  s_msg_ttl (g s) = s_msg_ttl s -> s_topic (g s) = s_topic s -> sagree st' sid s.
+Proof.
+  intros He Hs Hid H1 H2 s' Hs'. unfold get_sub in *. rewrite He in Hs'.
+  rewrite (find_id_map s_id g sid (subs st) Hid), Hs in Hs'. cbn in Hs'.
+  injection Hs' as <-. auto.
+Qed.
+
+Lemma sagree_upd st st' sid s p g :
+  subs st' = upd_where p g (subs st) -> get_sub st sid = Some s ->
+  (forall r, s_id (g r) = s_id r /\ s_msg_ttl (g r) = s_msg_ttl r /\ s_topic (g r) = s_topic r) ->
+  sagree st' sid s.
+Proof.
+  intros He Hs Hg. unfold upd_where in He.
+  eapply sagree_map; [exact He|exact Hs| | |].
+  - intros r _. cbn beta. destruct (p r); [apply (Hg r)|reflexivity].
+  - cbn beta. destruct (p s); [apply (Hg s)|reflexivity].
+  - cbn beta. destruct (p s); [apply (Hg s)|reflexivity].
+Qed.
+
+Lemma sagree_ins st st' sid s snew :
+  subs st' = ins s_id snew (subs st) -> get_sub st sid = Some s -> s_id snew <> sid ->
+  sagree st' sid s.
+Proof.
+  intros He Hs Hn s' Hs'. unfold get_sub in *. rewrite He in Hs'.
+  rewrite (find_id_ins_other s_id sid snew (subs st) Hn), Hs in Hs'. injection Hs' as <-. auto.
+Qed.
+
+Lemma sagree_del_ids st st' sid s chosen :
+  NoDup (map s_id (subs st)) ->
+  subs st' = del_ids s_id chosen (subs st) -> get_sub st sid = Some s -> sagree st' sid s.
+Proof.
+  intros Hu He Hs s' Hs'. unfold get_sub in *. rewrite He in Hs'. unfold del_ids in Hs'.
+  apply (find_id_filter_some s_id _ sid (subs st) s' Hu) in Hs'.
+  rewrite Hs in Hs'. injection Hs' as <-. auto.
+Qed.
+
+(* ---- operations that touch neither deliveries, messages nor subscriptions ---- *)
+Definition same3 (st st' : state) : Prop :=
+  dels st' = dels st /\ msgs st' = msgs st /\ subs st' = subs st.
+
+Definition quiet_op (o : op) : bool :=
+  match o with
+  | CreateTopic _ _ _ _ | GetTopic _ | UpdateTopic _ _ _ | DeleteTopic _ _ | ListTopics _ _ _
+  | ListTopicSubs _ _ _ | GetSub _ | ListSubs _ _ _ | SeekNoTarget _ | CreateSnap _ _ _ _ _
+  | GetSnap _ | ListSnaps _ _ _ | DeleteSnap _ => true
+  | _ => false
+  end.
+
+Ltac break_match :=
+  match goal with
+  | |- context[if ?c then _ else _] => destruct c
+  | |- context[match ?x with _ => _ end] => destruct x
+  end.
+
+Lemma step_quiet_op st now o : quiet_op o = true -> same3 st (post st now o).
+Proof.
+  destruct o; cbn [quiet_op]; try discriminate; intros _; unfold post, step, same3.
+  all: repeat break_match; cbn; auto.
+Qed.
+
+(* ---- operations that only touch the subscriptions table ---- *)
+Lemma create_sub_shape st q fresh wnow :
+  r_state (create_sub st q fresh wnow) = st \/
+  exists snew, s_id snew = fresh /\
+    r_state (create_sub st q fresh wnow) = set_subs st (ins s_id snew (subs st)) /\
+    r_notes (create_sub st q fresh wnow) =
+      (if has_id s_id fresh (subs st) then ["subscription-id-not-fresh"] else []).
+Proof.
+  unfold create_sub.
+  destruct (negb (valid_sub_name (q_name q))); [left; reflexivity|].
+  destruct (q_detached q); [left; reflexivity|].
+  match goal with |- context[if ?c then fail st Unimplemented else _] => destruct c end; [left; reflexivity|].
+  match goal with |- context[if ?c then fail st Unimplemented else _] => destruct c end; [left; reflexivity|].
+  match goal with |- context[if ?c then fail st Unimplemented else _] => destruct c end; [left; reflexivity|].
+  destruct (match q_dl q with Some (t, n) => _ | None => _ end) as [max_att dl_name].
+  match goal with |- context[if ?c then fail st InvalidArgument else _] => destruct c end; [left; reflexivity|].
+  destruct (is_some (find_live_sub st (q_name q))); [left; reflexivity|].
+  destruct (find_live_topic st (q_topic q)) as [t|]; [|left; reflexivity].
+  match goal with |- context[if ?c then fail st Unknown else _] => destruct c end; [left; reflexivity|].
+  match goal with |- context[match ?c with Some dlt => _ | None => fail st NotFound end] => destruct c end;
+    [|left; reflexivity].
+  right. eexists. cbn [done r_state r_notes]. split; [|split; reflexivity]. reflexivity.
+Qed.
+
+Lemma upd_path_fields st q wnow s dl t p s' dl' t' :
+  upd_path st q wnow (s, dl, t) p = inr (s', dl', t') ->
+  s_id s' = s_id s /\ s_topic s' = s_topic s /\
+  (p <> "message_retention_duration" -> s_msg_ttl s' = s_msg_ttl s).
+Proof.
+  unfold upd_path.
+  destruct (String.eqb p "name"); [discriminate|].
+  destruct (String.eqb p "topic"); [discriminate|].
+  destruct (String.eqb p "labels"); [intros H; inversion H; subst; cbn; auto|].
+  destruct (String.eqb p "expiration_policy"); [intros H; inversion H; subst; cbn; auto|].
+  destruct (String.eqb p "message_retention_duration") eqn:Er.
+  { apply String.eqb_eq in Er. intros H; inversion H; subst; cbn.
+    split; [reflexivity|]. split; [reflexivity|]. intros Hn; contradiction. }
+  destruct (String.eqb p "enable_message_ordering"); [intros H; inversion H; subst; cbn; auto|].
+  destruct (String.eqb p "retry_policy").
+  { destruct (match q_retry q with Some ab => ab | None => (None, None) end) as [a b].
+    intros H; inversion H; subst; cbn; auto. }
+  destruct (String.eqb p "push_config").
+  { destruct (validate_push (q_push q)); [discriminate|]. intros H; inversion H; subst; cbn; auto. }
+  destruct (String.eqb p "filter").
+  { destruct (String.eqb (q_filter q) ""); [intros H; inversion H; subst; cbn; auto|].
+    destruct (filter_parses (q_filter q)); [intros H; inversion H; subst; cbn; auto|discriminate]. }
+  destruct (String.eqb p "dead_letter_policy"); [|discriminate].
+  destruct (match q_dl q with Some x => x | None => (EmptyString, 0) end) as [tn n].
+  destruct (String.eqb tn ""); [intros H; inversion H; subst; cbn; auto|].
+  destruct (find_live_topic st tn); [intros H; inversion H; subst; cbn; auto|discriminate].
+Qed.
+
+Lemma upd_paths_fields st q wnow ps : forall s dl t s' dl' t',
+  upd_paths st q wnow (s, dl, t) ps = inr (s', dl', t') ->
+  s_id s' = s_id s /\ s_topic s' = s_topic s /\
+  (~ In "message_retention_duration" ps -> s_msg_ttl s' = s_msg_ttl s).
+Proof.
+  induction ps as [|p r IH]; intros s dl t s' dl' t'; cbn [upd_paths].
+  - intros H; inversion H; subst. auto.
+  - destruct (upd_path st q wnow (s, dl, t) p) as [c|[[s1 dl1] t1]] eqn:E; [discriminate|].
+    intros H. apply upd_path_fields in E. destruct E as [E1 [E2 E3]].
+    destruct (IH _ _ _ _ _ _ H) as [F1 [F2 F3]].
+    split; [congruence|]. split; [congruence|]. intros Hn.
+    rewrite F3; [rewrite E3; [reflexivity|]|].
+    + intros Hx; apply Hn; left; exact Hx.
+    + intros Hx; apply Hn; right; exact Hx.
+Qed.
+
+Lemma update_sub_shape st q paths wnow :
+  r_state (update_sub st q paths wnow) = st \/
+  exists s0 dl0 s1 dl1 t1, find_live_sub st (q_name q) = Some s0 /\
+    upd_paths st q wnow (s0, dl0, false) paths = inr (s1, dl1, t1) /\
+    r_state (update_sub st q paths wnow) =
+      set_subs st (upd_where (fun x => N.eqb (s_id x) (s_id s0)) (fun _ => s1) (subs st)).
+Proof.
+  unfold update_sub.
+  destruct (negb (valid_sub_name (q_name q))); [left; reflexivity|].
+  destruct (find_live_sub st (q_name q)) as [s0|]; [|left; reflexivity].
+  destruct (upd_paths _ _ _ _ _) as [c|[[s1 dl1] t1]] eqn:E; [left; reflexivity|].
+  destruct (negb t1); [left; reflexivity|].
+  right. eexists s0, _, s1, dl1, t1. split; [reflexivity|]. split; [exact E|reflexivity].
+Qed.
+
+Definition sub_op (o : op) : bool :=
+  match o with
+  | CreateSub _ _ _ | UpdateSub _ _ _ | DeleteSub _ _ | ModifyPush _ _ | SetDelay _ _ => true
+  | _ => false
+  end.
+
+Lemma step_sub_op st now o sid s :
+  ids_unique st -> legal st now o -> get_sub st sid = Some s -> sub_op o = true ->
+  match o with
+  | UpdateSub q paths _ => sub_of_name st (q_name q) = Some sid -> ~ In "message_retention_duration" paths
+  | _ => True
+  end ->
+  dels (post st now o) = dels st /\ msgs (post st now o) = msgs st /\ sagree (post st now o) sid s.
+Proof.
+  intros Hu Hl Hs Hop Hdisc.
+  assert (Hsame : forall st', st' = st -> dels st' = dels st /\ msgs st' = msgs st /\ sagree st' sid s).
+  { intros st' ->. split; [reflexivity|]. split; [reflexivity|]. apply (sagree_same st); auto. }
+  assert (Hupd : forall p g,
+             (forall r, s_id (g r) = s_id r /\ s_msg_ttl (g r) = s_msg_ttl r /\ s_topic (g r) = s_topic r) ->
+             dels (set_subs st (upd_where p g (subs st))) = dels st /\
+             msgs (set_subs st (upd_where p g (subs st))) = msgs st /\
+             sagree (set_subs st (upd_where p g (subs st))) sid s).
+  { intros p g Hg. split; [reflexivity|]. split; [reflexivity|].
+    eapply (sagree_upd st); [reflexivity|exact Hs|exact Hg]. }
+  destruct o; cbn [sub_op] in Hop; try discriminate; unfold legal, post, step in *.
+  - (* CreateSub *)
+    destruct (create_sub_shape st q fresh wnow) as [H|[snew [H1 [H2 H3]]]]; [apply Hsame; exact H|].
+    rewrite H2. split; [reflexivity|]. split; [reflexivity|].
+    eapply (sagree_ins st); [reflexivity|exact Hs|].
+    rewrite H3 in Hl. destruct (has_id s_id fresh (subs st)) eqn:Ef; [discriminate|].
+    apply get_sub_in in Hs. destruct Hs as [Hin Hid].
+    pose proof (has_id_false s_id _ _ Ef s Hin). congruence.
+  - (* UpdateSub *)
+    destruct (update_sub_shape st q paths wnow) as [H|[s0 [dl0 [s1 [dl1 [t1 [Hf [Hp H]]]]]]]];
+      [apply Hsame; exact H|].
+    rewrite H. split; [reflexivity|]. split; [reflexivity|].
+    apply upd_paths_fields in Hp. destruct Hp as [P1 [P2 P3]].
+    unfold upd_where. eapply (sagree_map st); [reflexivity|exact Hs| | |].
+    + intros r _. cbn beta. destruct (N.eqb (s_id r) (s_id s0)) eqn:E; [|reflexivity].
+      apply N.eqb_eq in E. congruence.
+    + cbn beta. destruct (N.eqb (s_id s) (s_id s0)) eqn:E; [|reflexivity].
+      apply N.eqb_eq in E.
+      pose proof (find_live_sub_get _ _ _ Hu Hf) as Hg0.
+      pose proof (get_sub_in _ _ _ Hs) as [_ Hsid].
+      rewrite <- E, Hsid, Hs in Hg0. injection Hg0 as <-.
+      apply P3. apply Hdisc. unfold sub_of_name. rewrite Hf. cbn. congruence.
+    + cbn beta. destruct (N.eqb (s_id s) (s_id s0)) eqn:E; [|reflexivity].
+      apply N.eqb_eq in E.
+      pose proof (find_live_sub_get _ _ _ Hu Hf) as Hg0.
+      pose proof (get_sub_in _ _ _ Hs) as [_ Hsid].
+      rewrite <- E, Hsid, Hs in Hg0. injection Hg0 as <-. exact P2.
+  - (* DeleteSub *)
+    destruct (negb (valid_sub_name name)); [apply Hsame; reflexivity|].
+    destruct (find_live_sub st name); [|apply Hsame; reflexivity].
+    cbn [done r_state]. apply Hupd. intros r. cbn. auto.
+  - (* ModifyPush *)
+    destruct (negb (valid_sub_name name)); [apply Hsame; reflexivity|].
+    destruct (validate_push p); [apply Hsame; reflexivity|].
+    destruct (find_live_sub st name); [|apply Hsame; reflexivity].
+    cbn [done r_state]. apply Hupd. intros r. cbn. auto.
+  - (* SetDelay *)
+    destruct (find_live_sub st name); [|apply Hsame; reflexivity].
+    cbn [done r_state]. apply Hupd. intros r. cbn. auto.
+Qed.
+
+(* ---- publish ---- *)
+Definition pub_msg (t : topic) (p : pubmsg) : msg :=
+  mkMsg (pm_id p) (t_id t) (pm_now p) (pm_attrs p)
+        (if String.eqb (pm_key p) "" then None else Some (pm_key p)) (pm_payload p) (pm_size p).
+Definition pub_st1 (st : state) (t : topic) (p : pubmsg) : state :=
+  set_msgs st (ins m_id (pub_msg t p) (msgs st)).
+
+Lemma publish_one_unfold st t p fr st' fr' wk :
+  publish_one st t p fr = (st', fr', wk, []) ->
+  has_id m_id (pm_id p) (msgs st) = false /\
+  deliver_to_subs (pub_st1 st t p) (live_subs_of (pub_st1 st t p) (t_id t)) (pub_msg t p) (pm_now p) fr
+    = (st', fr', wk, []).
+Proof.
+  unfold publish_one, pub_st1, pub_msg. cbv zeta.
+  destruct (deliver_to_subs _ _ _ _ _) as [[[st2 fr2] w2] n2].
+  destruct (has_id m_id (pm_id p) (msgs st)); intros H; inversion H; subst.
+  split; reflexivity.
+Qed.
+
+(* ---- acks, delays, stream ---- *)
+Lemma step_ack st now name ids wnow :
+  post st now (Ack name ids wnow) = st \/
+  exists l, ids = Some l /\ post st now (Ack name ids wnow) = fst (do_ack st l wnow).
+Proof.
+  unfold post, step. destruct (negb (valid_sub_name name)); [left; reflexivity|].
+  destruct ids as [l|]; [|left; reflexivity]. right. exists l. split; reflexivity.
+Qed.
+
+Lemma step_modack st now name ids seconds wnow :
+  post st now (ModAck name ids seconds wnow) = st \/
+  exists l, post st now (ModAck name ids seconds wnow) = fst (do_delay st l (seconds * sec) wnow).
+Proof.
+  unfold post, step. destruct (negb (valid_sub_name name)); [left; reflexivity|].
+  destruct ids as [l|]; [|left; reflexivity]. right. exists l.
+  destruct (do_delay st l (seconds * sec) wnow) as [st' w]. reflexivity.
+Qed.
+
+Lemma step_stream st now acks nacks wnow fz fr :
+  legal st now (StreamAckNack acks nacks wnow fz fr) ->
+  exists st2 fr2 w2,
+    do_nack (fst (do_ack st acks wnow)) nacks now wnow fz fr = (st2, fr2, w2, []) /\
+    post st now (StreamAckNack acks nacks wnow fz fr) = st2.
+Proof.
+  unfold legal, post, step. unfold do_ack. cbn [fst].
+  destruct (do_nack _ nacks now wnow fz fr) as [[[st2 fr2] w2] n2].
+  cbn [done r_notes r_state]. intros H. apply app_eq_nil in H. destruct H as [-> _].
+  exists st2, fr2, w2. split; reflexivity.
+Qed.
+
+(* ---- seek on another subscription ---- *)
+Lemma andb4_first a b c d : a && b && c && d = true -> a = true.
+Proof. destruct a; [reflexivity|cbn; discriminate]. Qed.
+
+Lemma seek_time_other sid st s0 target now wnow :
+  s_id s0 <> sid ->
+  msgs (fst (seek_time st s0 target now wnow)) = msgs st /\
+  subs (fst (seek_time st s0 target now wnow)) = subs st /\
+  sdels sid (fst (seek_time st s0 target now wnow)) = sdels sid st.
+Proof.
+  intros Hn. unfold seek_time. cbv zeta. cbn [fst]. split; [reflexivity|]. split; [reflexivity|].
+  unfold sdels, set_dels. cbn [dels].
+  rewrite sdels_upd_other; [rewrite sdels_upd_other; [reflexivity| |]| |].
+  - intros r. reflexivity.
+  - intros r H. apply andb4_first in H. apply N.eqb_eq in H. congruence.
+  - intros r. reflexivity.
+  - intros r H. apply andb4_first in H. apply N.eqb_eq in H. congruence.
+Qed.
+
+Lemma seek_snap_other sid st s0 n now wnow :
+  s_id s0 <> sid ->
+  msgs (fst (seek_snap st s0 n now wnow)) = msgs st /\
+  subs (fst (seek_snap st s0 n now wnow)) = subs st /\
+  sdels sid (fst (seek_snap st s0 n now wnow)) = sdels sid st.
+Proof.
+  intros Hn. unfold seek_snap. cbv zeta. cbn [fst]. split; [reflexivity|]. split; [reflexivity|].
+  unfold sdels, set_dels. cbn [dels].
+  assert (Hp : forall (b c d : bool) r,
+             N.eqb (d_sub r) (s_id s0) && b && c && d = true -> d_sub r <> sid).
+  { intros b c d r H. apply andb4_first in H. apply N.eqb_eq in H. congruence. }
+  rewrite sdels_upd_other; [| intros r; reflexivity | intros r H; eapply Hp; exact H].
+  destruct (n_acked n) as [|a l].
+  - rewrite sdels_upd_other; [reflexivity| intros r; reflexivity | intros r H; eapply Hp; exact H].
+  - rewrite sdels_upd_other; [| intros r; reflexivity | intros r H; eapply Hp; exact H].
+    rewrite sdels_upd_other; [reflexivity| intros r; reflexivity | intros r H; eapply Hp; exact H].
+Qed.
+
+Lemma step_seek_other st now o sid :
+  is_seek_of st o sid = false ->
+  match o with SeekTime _ _ _ | SeekSnap _ _ _ => True | _ => False end ->
+  msgs (post st now o) = msgs st /\ subs (post st now o) = subs st /\
+  sdels sid (post st now o) = sdels sid st.
+Proof.
+  intros Hseek Hop. destruct o; try contradiction; unfold post, step;
+    unfold is_seek_of, sub_of_name in Hseek.
+  - destruct (negb (valid_sub_name name)); [auto|].
+    destruct (find_live_sub st name) as [s0|]; [|auto]. cbn [option_map] in Hseek.
+    apply N.eqb_neq in Hseek.
+    pose proof (seek_time_other sid st s0 target now wnow Hseek) as H.
+    destruct (seek_time st s0 target now wnow) as [st' w]. exact H.
+  - destruct (negb (valid_sub_name name)); [auto|].
+    destruct (negb (valid_snap_name snapname)); [auto|].
+    destruct (find_live_sub st name) as [s0|]; [|auto]. cbn [option_map] in Hseek.
+    destruct (find_snap st snapname) as [n|]; [|auto].
+    apply N.eqb_neq in Hseek.
+    pose proof (seek_snap_other sid st s0 n now wnow Hseek) as H.
+    destruct (seek_snap st s0 n now wnow) as [st' w]. exact H.
+Qed.
+
+(* ---- jobs ---- *)
+Lemma run_job_failed st now j min_age max chosen wnow fr :
+  r_state (run_job st now j min_age max chosen true wnow fr) = st.
+Proof. unfold run_job. destruct j; reflexivity. Qed.
+
+Lemma run_job_choice st now j min_age max chosen wnow fr :
+  r_notes (run_job st now j min_age max chosen false wnow fr) = [] ->
+  choice_legal (job_matches st j now min_age) chosen max = true.
+Proof.
+  unfold run_job. destruct (choice_legal (job_matches st j now min_age) chosen max); [reflexivity|].
+  destruct j; cbn; try discriminate.
+  - destruct (existsb (topic_has_messages st) chosen); cbn; discriminate.
+  - destruct (sweep_each st (sort_ids chosen) wnow fr) as [[[st1 fr1] w] n]. cbn. discriminate.
+Qed.
+
+Lemma choice_legal_in matching chosen max i :
+  choice_legal matching chosen max = true -> In i chosen -> In i matching.
+Proof.
+  unfold choice_legal. intros H Hi. apply andb_prop in H. destruct H as [H _].
+  apply andb_prop in H. destruct H as [_ H]. rewrite forallb_forall in H.
+  apply mem_id_In. apply H. exact Hi.
+Qed.
+
+Lemma run_job_sweep st now min_age max chosen wnow fr :
+  r_notes (run_job st now JDeadLetterSweep min_age max chosen false wnow fr) = [] ->
+  exists st1 fr1 w, sweep_each st (sort_ids chosen) wnow fr = (st1, fr1, w, []) /\
+    r_state (run_job st now JDeadLetterSweep min_age max chosen false wnow fr) = st1.
+Proof.
+  unfold run_job.
+  destruct (sweep_each st (sort_ids chosen) wnow fr) as [[[st1 fr1] w] n] eqn:E.
+  cbn [done r_notes r_state]. intros H.
+  apply app_eq_nil in H. destruct H as [_ H]. apply app_eq_nil in H. destruct H as [-> _].
+  exists st1, fr1, w. split; reflexivity.
+Qed.
